@@ -178,14 +178,14 @@ package proto
 //@ -- DecodeColumn overwrites the column (it does not need a prior Reset) and leaves it well-formed.
 //@ -- The string length read from the stream has NO cap in the library: the allocation and overflow
 //@ -- obligations on it are known findings (see /verif/KNOWN_FINDINGS.txt).
-//@ contract (c *ColStr) DecodeColumn(r, rows) (err) props(C01,C06,C07,C16)
+//@ contract (c *ColStr) DecodeColumn(r, rows) (err) props(C06)
 //@   requires c != nil && r != nil && 0 <= rows && rows <= maxRowsInBLock
 //@   modifies c.Buf, c.Pos, contents(c.Buf), r.pos, r.failed, r.b.Buf
 //@   alloc 127 * 100000000 + 16 * 100000000
-//@   ensures err == nil ==> len(c.Pos) == rows {rows}
-//@   ensures err == nil ==> wfStr(c) {positions-inside-buffer}
-//@   ensures err == nil ==> r.failed == old(r.failed)
-//@   ensures old(r.pos) <= r.pos && r.pos <= r.end
+//@   ensures err == nil ==> len(c.Pos) == rows [C01,C06,C16] {rows}
+//@   ensures err == nil ==> wfStr(c) [C01,C06,C16] {positions-inside-buffer}
+//@   ensures err == nil ==> r.failed == old(r.failed) [C06,C07]
+//@   ensures old(r.pos) <= r.pos && r.pos <= r.end [C06,C07]
 //@ loop 0 (i)
 //@   modifies c.Buf, c.Pos, *p, r.pos, r.failed, r.b.Buf
 //@   invariant 0 <= i && i <= rows && len(c.Pos) == i
